@@ -675,9 +675,10 @@ async fn run_case(addr: SocketAddr, certs: &Certs, t: &[&str]) -> anyhow::Result
             let mut pub_a = other.publisher(&format!("/{ns}/{tp}")).with_encoder(StringCodec).open().await?;
             let chunk = "x".repeat(64 * 1024);
             let mut stuck = 0;
+            let t0 = std::time::Instant::now();
             for _ in 0..400 {
                 if tokio::time::timeout(Duration::from_millis(300), pub_a.send(chunk.clone())).await.is_err() { stuck += 1; } else { stuck = 0; }
-                if stuck >= 4 { break; }
+                if stuck >= 4 || t0.elapsed() > Duration::from_secs(25) { break; }
             }
             pub_b.send("second".to_string()).await?;
             let after = match tokio::time::timeout(Duration::from_secs(6), sub_b.next()).await { Ok(Some(Ok(m))) if m == "second" => "ok".to_string(), Err(_) => "FAILED:nothing_arrived".to_string(), other => format!("FAILED:{}", format!("{other:?}").chars().take(40).collect::<String>().replace(' ', "_")) };
@@ -864,9 +865,9 @@ pub fn run_named(cfg: &Cfg, name: &str) {
         }
         // `stall1`: the scenario runs against a server of its own that has one worker thread
         let case_addr = if t[1] == "stall1" { match start_server_single_worker(&certs) { Ok(a) => a, Err(_) => addr } } else { addr };
-        let res = rt.block_on(async { tokio::time::timeout(Duration::from_secs(60), run_case(case_addr, &certs, &t)).await });
+        let res = rt.block_on(async { tokio::time::timeout(Duration::from_secs(150), run_case(case_addr, &certs, &t)).await });
         let (imp, mon) = match res {
-            Err(_) => { dead = true; ("TIMEOUT".to_string(), Err("C11/C17: the exchange did not complete within 60 s".to_string())) }
+            Err(_) => { dead = true; ("TIMEOUT".to_string(), Err("C11/C17: the exchange did not complete within 150 s".to_string())) }
             Ok(Err(e)) => (format!("ERROR {}", format!("{e:?}").replace('\n', " ").chars().take(160).collect::<String>()),
                            Err(if t[1].starts_with("stall") || t[1] == "mute" { format!("C11/C17: with one topic stalled the server can no longer be talked to at all: {e}") } else { format!("{e}") })),
             Ok(Ok(line)) => {
